@@ -17,10 +17,17 @@ import (
 )
 
 type renderer struct {
-	p      *Program
-	subst  map[*ssa.Parameter]string // for inlined callees
-	depth  int
-	onPath map[*ssa.Phi]bool // loop-carried phis being rendered
+	p        *Program
+	subst    map[*ssa.Parameter]string // for inlined callees
+	depth    int
+	onPath   map[*ssa.Phi]bool // loop-carried phis being rendered
+	noExpand bool              // loop-carried variables by name only
+}
+
+// RenderShort renders with loop-carried variables by name only.
+func (p *Program) RenderShort(v ssa.Value) string {
+	r := &renderer{p: p, noExpand: true}
+	return r.val(v, 0)
 }
 
 func (p *Program) Render(v ssa.Value) string {
@@ -135,6 +142,26 @@ func (r *renderer) val(v ssa.Value, d int) string {
 		}
 		if r.onPath == nil {
 			r.onPath = map[*ssa.Phi]bool{}
+		}
+		// a loop-carried variable: named; expanded once (initial value | step), nested
+		// occurrences are just the name
+		if x.Comment != "" && loopCarried(x) {
+			if r.onPath[x] || r.noExpand {
+				return "φ" + x.Comment
+			}
+			r.onPath[x] = true
+			defer delete(r.onPath, x)
+			var parts []string
+			seen := map[string]bool{}
+			for _, e := range x.Edges {
+				s := r.val(e, d+2)
+				if !seen[s] && s != "φ"+x.Comment {
+					seen[s] = true
+					parts = append(parts, s)
+				}
+			}
+			sort.Strings(parts)
+			return "φ" + x.Comment + "⟨" + strings.Join(parts, " | ") + "⟩"
 		}
 		if r.onPath[x] {
 			return "loop"
@@ -578,4 +605,77 @@ func isLocalAddr(a ssa.Value) bool {
 			return false
 		}
 	}
+}
+
+// renderedCall: a call with its rendered form and the relations that hold at its block.
+type renderedCall struct {
+	Call   ssa.CallInstruction
+	Text   string
+	Guards []string
+}
+
+func (p *Program) renderedCalls(fn *ssa.Function) []renderedCall {
+	var out []renderedCall
+	F := FactsOf(fn)
+	r := &renderer{p: p, depth: 2} // no inlining of the call itself
+	for _, call := range callsIn(fn) {
+		rc := renderedCall{Call: call, Text: r.call(call.Common(), 0)}
+		for _, rl := range F.At(call.Block()).Rels() {
+			rc.Guards = append(rc.Guards, p.Render(rl.x)+" "+rl.op.String()+" "+p.Render(rl.y))
+		}
+		for f := range F.At(call.Block()) {
+			if _, ok := relsOf(f); !ok {
+				s := p.Render(f.cond)
+				if !f.truth {
+					s = "!" + s
+				}
+				rc.Guards = append(rc.Guards, s)
+			}
+		}
+		sort.Strings(rc.Guards)
+		out = append(out, rc)
+	}
+	return out
+}
+
+var loopCarriedCache = map[*ssa.Phi]bool{}
+
+// loopCarried: the phi sits in a block that can reach itself and one of its incoming values
+// depends on the phi.
+func loopCarried(phi *ssa.Phi) bool {
+	if v, ok := loopCarriedCache[phi]; ok {
+		return v
+	}
+	res := false
+	if reachableFrom(phi.Block().Succs, nil)[phi.Block()] {
+		// does some edge value (transitively, within a few steps) use phi?
+		seen := map[ssa.Value]bool{}
+		var uses func(v ssa.Value, d int) bool
+		uses = func(v ssa.Value, d int) bool {
+			if v == ssa.Value(phi) {
+				return true
+			}
+			if d > 8 || seen[v] {
+				return false
+			}
+			seen[v] = true
+			in, ok := v.(ssa.Instruction)
+			if !ok {
+				return false
+			}
+			for _, op := range in.Operands(nil) {
+				if *op != nil && uses(*op, d+1) {
+					return true
+				}
+			}
+			return false
+		}
+		for _, e := range phi.Edges {
+			if e != ssa.Value(phi) && uses(e, 0) {
+				res = true
+			}
+		}
+	}
+	loopCarriedCache[phi] = res
+	return res
 }
